@@ -321,6 +321,63 @@ pub fn run(tier: Tier) -> i32 {
             }
         }
     });
+    // pragmas and listing directives (as the shipped part definition files carry them) in front of
+    // and behind the instruction: none of them changes what the device has. Only the lines the
+    // tool accepts at all are used (decided on a program without a device).
+    let n_pragma = AtomicU64::new(0);
+    let pragma_lines: Vec<&str> = [
+        "#pragma AVRPART CORE INSTRUCTIONS_NOT_SUPPORTED break",
+        "#pragma AVRPART CORE INSTRUCTIONS_NOT_SUPPORTED",
+        "#pragma AVRPART CORE CORE_VERSION V2E",
+        "#pragma AVRPART MEMORY PROG_FLASH 8192",
+        "#pragma AVRPART ADMIN PART_NAME ATmega2560",
+        ".pragma AVRPART ADMIN PART_NAME ATmega2560",
+        "#pragma warning instruction",
+        "#pragma error instruction",
+        "#pragma partinc 0",
+        "#pragma overlap",
+        ".listmac",
+        ".nolist",
+        ".overlap",
+    ]
+    .into_iter()
+    .filter(|l| sut::build_str(&format!("nop\n{}\nnop\n", l)).is_ok())
+    .collect();
+    rep.guard(pragma_lines.len() >= 4, "fewer than 4 pragma / listing lines are accepted by the tool");
+    work.par_iter().for_each(|(d, fm)| {
+        let gone = removed_by(fm, &d.flags);
+        let c = &fm.variants[0];
+        for (pi, p) in pragma_lines.iter().enumerate() {
+            for place in 0..3usize {
+                // before, behind, both
+                let src = match place {
+                    0 => format!(".device {}\n{}\n{}\n", d.name, p, c.text()),
+                    1 => format!(".device {}\n{}\nnop\n{}\n", d.name, c.text(), p),
+                    _ => format!(".device {}\n{}\n{}\nnop\n{}\n", d.name, p, c.text(), p),
+                };
+                let o = sut::build_str(&src);
+                evals.fetch_add(1, Ordering::Relaxed);
+                n_pragma.fetch_add(1, Ordering::Relaxed);
+                let bad = match (gone, &o) {
+                    (Some(flag), Outcome::Ok(b)) => Some((format!("C13/ungated-near-pragma/flag={}/form={}/device={}", flag, fm.name, d.name), format!("{} lacks `{}` (flag {}) but with `{}` {} it assembles to {}", d.name, fm.name, flag, p, ["in front of it", "behind it", "around it"][place], sut::hex_trunc(&b.code, 16)))),
+                    (None, Outcome::Err(e)) if nodev.contains_key(&c.text()) => Some((format!("C13/over-rejected-near-pragma/form={}/device={}/pragma={}", fm.name, d.name, pi), format!("{} has `{}` but with `{}` {} it is rejected: {}", d.name, fm.name, p, ["in front of it", "behind it", "around it"][place], e))),
+                    (None, Outcome::Ok(b)) => {
+                        // same bytes as without the pragma (lds/sts: the row's form)
+                        let plain = sut::build_str(&format!(".device {}\n{}\n", d.name, c.text()));
+                        match plain {
+                            Outcome::Ok(pb) if b.code.starts_with(&pb.code) => None,
+                            Outcome::Ok(pb) => Some((format!("C13/changed-bytes-near-pragma/form={}/device={}", fm.name, d.name), format!("`{}` on {} assembles to {} without and to {} with `{}` {}", c.text(), d.name, sut::hex(&pb.code), sut::hex_trunc(&b.code, 16), p, ["in front of it", "behind it", "around it"][place]))),
+                            _ => None,
+                        }
+                    }
+                    _ => None,
+                };
+                if let Some((key, what)) = bad {
+                    rep.violation(&key, || what, || json!({"kind": "build_str", "source": src, "observed": o.to_json()}));
+                }
+            }
+        }
+    });
     // two-word lds/sts take any 16-bit address on every device that has them (external memory,
     // I/O space): the device's internal RAM extent does not gate them
     let n_lds_space = AtomicU64::new(0);
@@ -490,6 +547,8 @@ pub fn run(tier: Tier) -> i32 {
         "two_instruction_programs": n_pairs.load(Ordering::Relaxed),
         "lds_sts_over_the_address_space_programs": n_lds_space.load(Ordering::Relaxed),
         "instruction_after_csegsize_or_segment_directives_programs": n_after_directive.load(Ordering::Relaxed),
+        "instruction_near_pragma_or_listing_lines_programs": n_pragma.load(Ordering::Relaxed),
+        "pragma_or_listing_lines_used": pragma_lines,
         "jumps_around_an_available_instruction_programs": n_between.load(Ordering::Relaxed),
         "device_selected_elsewhere_programs": n_select.load(Ordering::Relaxed),
         "sibling_spelling_programs": n_sibling.load(Ordering::Relaxed),
